@@ -85,42 +85,49 @@ def rule_m1(ck, prog):
                 ck.holds("C03-M1", st, K.loc(f), "for all 256 first bytes: the short form ends at the first byte in {a-z} (or at NUL / the length)")
         except CS.CannotEvaluate as ex:
             ck.undecided("C03-M1", st, K.loc(f), "cannot evaluate patternSeparatorShortPos: %s" % ex)
-    # separators
-    for name, want in (("patternSeparatorPos", "?:[]"), ("cmdSeparatorPos", ":?")):
-        f = prog.fn(name)
-        if f is None:
-            ck.anchor_lost("C03-M1", name)
-            continue
-        ck.analysed(f)
-        st = K.site(f, "separator-set", 0)
-        cs = list(f.calls("strnpbrk"))
-        lit = None
-        if len(cs) == 1:
-            a = C.call_args(cs[0])
-            s2 = a[2].strip_all_casts()
-            lit = s2.get("str") if s2.k == "StringLiteral" else None
-            passthru = a[0].strip_all_casts().get("path") == f.params[0]["name"] and a[1].strip_all_casts().get("path") == f.params[1]["name"]
-        if lit is None:
-            ck.anchor_lost("C03-M1", "%s: separator literal" % name)
-            continue
-        # NULL -> len ; else offset
-        sums = P.summarize(f)
-        okret = True
-        for ps in sums:
-            isnull = [pol for a_, pol in ps.facts if not isinstance(pol, tuple)]
-            r = ps.ret_node.child(0).strip_all_casts().src.replace(" ", "") if ps.ret_node is not None and ps.ret_node.ch else ""
-            val = ps.env.get("result")
-        rsrc = {n.child(0).strip_all_casts().src.replace(" ", "") for n in f.nodes.values() if n.k == "ReturnStmt" and n.ch}
-        stores = {n.child(1).strip_all_casts().src.replace(" ", "") for n, t in C.stores(f) if t.get("path") == "result"}
-        vals = (rsrc | stores) - {"result"}
-        p0, p1 = f.params[0]["name"], f.params[1]["name"]
-        okret = vals == {p1, "separator-%s" % p0}
-        if set(lit) == set(want) and passthru and okret:
-            ck.holds("C03-M1", st, K.loc(f, cs[0]), "first of {%s} inside (%s, %s), else %s" % (want, p0, p1, p1))
-        else:
-            ck.violated("C03-M1", st, K.loc(f, cs[0]),
-                        "%s searches {%s} (expected {%s}), arguments passed through: %s, returns %s"
-                        % (name, lit, want, passthru, sorted(vals)))
+    # separators: the keyword boundary searches of matchCommand, wherever the search helper(s) live and however the separator
+    # set reaches strnpbrk (literal in the helper, or a parameter bound to a literal at the call)
+    mc = prog.fn("matchCommand")
+    searches = boundary_searches(prog, mc) if mc is not None else []
+    if mc is None or not searches:
+        ck.anchor_lost("C03-M1", "keyword boundary searches (a helper around strnpbrk) in matchCommand")
+    else:
+        from sa import interp as I
+        want_of = {"pattern": "?:[]", "cmd": ":?"}
+        seen = set()
+        for sr in searches:
+            role = "pattern" if (sr["subject"] or "").startswith("pattern") else ("cmd" if (sr["subject"] or "").startswith("cmd") else None)
+            key = (sr["helper"].name, sr["set"], role)
+            if key in seen:
+                continue
+            seen.add(key)
+            h = sr["helper"]
+            ck.analysed(h)
+            st = K.site(h, "separator-set" if len({k_[0] for k_ in seen}) == len(seen) else "separator-set(%s)" % role, 0)
+            probs = []
+            if role is None:
+                probs.append("searches `%s`, which is neither the pattern nor the header" % sr["subject"])
+            elif sr["set"] is None or set(sr["set"]) != set(want_of[role]):
+                probs.append("the %s keyword ends at the first of {%s}, expected {%s}" % (role, sr["set"], want_of[role]))
+            if not sr["passthru"]:
+                probs.append("the subject and its length are not handed to strnpbrk unchanged")
+            # NULL -> len ; else offset: the helper evaluated with strnpbrk answering NULL / a pointer 3 bytes in
+            buf = [0] * 8
+            extra = [I.mkstring(sr["set"] or "")] * max(0, len(h.params) - 2)
+            try:
+                for answer, expect in ((0, "len"), (I.Ptr(buf, 3), 3)):
+                    v, _l = I.call(prog, h.name, [I.Ptr(buf, 0), I.Sym("len", 64)] + extra, effects={"strnpbrk": answer})
+                    okv = (isinstance(v, I.Sym) and v.name == "len") if expect == "len" else v == 3
+                    if not okv:
+                        probs.append("with strnpbrk answering %s the search returns %r, expected %s"
+                                     % ("NULL" if answer == 0 else "subject + 3", v, "the length" if expect == "len" else "3"))
+            except I.Stuck as e:
+                ck.undecided("C03-M1", st, K.loc(h), "cannot evaluate %s: %s" % (h.name, e))
+                continue
+            if probs:
+                ck.violated("C03-M1", st, K.loc(h, sr["inner"]), "; ".join(probs))
+            else:
+                ck.holds("C03-M1", st, K.loc(h, sr["inner"]), "%s keyword: first of {%s} inside (subject, length), else the length" % (role, sr["set"]))
     # strnpbrk
     f = prog.fn("strnpbrk")
     if f is None:
@@ -587,6 +594,34 @@ def slot_helper(prog, S, call, numbers, idxvar, nlen, dflt):
     return (stores_ok and stored_default, stores_ok and rets_ok and g.ret.get("tk") == "ptr")
 
 
+def boundary_searches(prog, f):
+    """calls in `f` that find the end of a keyword: a call of a small static helper that hands its first two parameters to
+    strnpbrk together with a separator set - a string literal in the helper or a parameter bound to a literal at the call.
+    [{call, helper, inner (the strnpbrk call), subject (path of the first argument), set, passthru}]"""
+    out = []
+    for c in K.ordinal_sites(list(f.calls())):
+        h = prog.fn(c.get("callee") or "")
+        if h is None or not h.static or h.name == f.name or len(h.blocks) > 12:
+            continue
+        inner = list(h.calls("strnpbrk"))
+        if len(inner) != 1 or len(h.params) < 2:
+            continue
+        a = C.call_args(inner[0])
+        s2 = a[2].strip_all_casts()
+        lit = s2.get("str") if s2.k == "StringLiteral" else None
+        if lit is None and s2.k == "DeclRefExpr" and s2["decl"]["kind"] == "param":
+            idx = [i for i, p_ in enumerate(h.params) if p_["name"] == s2["decl"]["name"]]
+            ca = C.call_args(c)
+            if idx and idx[0] < len(ca):
+                x = ca[idx[0]].strip_all_casts()
+                lit = x.get("str") if x.k == "StringLiteral" else None
+        passthru = a[0].strip_all_casts().get("path") == h.params[0]["name"] and a[1].strip_all_casts().get("path") == h.params[1]["name"]
+        ca = C.call_args(c)
+        out.append({"call": c, "helper": h, "inner": inner[0], "subject": ca[0].strip_all_casts().get("path") if ca else None,
+                    "set": lit, "passthru": passthru})
+    return out
+
+
 def rule_m5_m6(ck, prog, S):
     f = prog.fn("matchCommand")
     if f is None:
@@ -595,7 +630,8 @@ def rule_m5_m6(ck, prog, S):
     pg = S.pg(f)
     HASH = ord("#")
     numbers, nlen, dflt = f.params[3]["name"], f.params[4]["name"], f.params[5]["name"]
-    seps = K.ordinal_sites(list(f.calls("patternSeparatorPos")))
+    seps = [sr["call"] for sr in boundary_searches(prog, f) if (sr["subject"] or "").startswith("pattern") and
+            sr["set"] is not None and set(sr["set"]) == set("?:[]")]
     if len(seps) < 2:
         ck.anchor_lost("C03-M5", "keyword boundary searches in matchCommand (%d)" % len(seps))
         return
